@@ -47,7 +47,7 @@ def same(node, text: str) -> bool:
 
 ATTRS = {"value": "PValue", "weight": "PWeight", "ndim": "PNdim", "shape": "PShape"}
 # sibling functions of the layer that appear as primitives (their own bodies are tied separately)
-SIBLING_OF_PRIM = {"PWAbs": "__abs__", "PFilled": "filled", "PValued": "valued", "PMap": "map", "PMapBoth": "map_both", "PWsum": "wsum", "PSumM": "sum",
+SIBLING_OF_PRIM = {"PSumDimU": "sum_dim", "PStd": "compute_std_from_variance", "PWAbs": "__abs__", "PFilled": "filled", "PValued": "valued", "PMap": "map", "PMapBoth": "map_both", "PWsum": "wsum", "PSumM": "sum",
                    "PGetDim": "_get_dim", "PWsumDim": "wsum_dim", "PView": "view"}
 
 
@@ -57,6 +57,8 @@ class Fn:
     def __init__(self, f: ast.FunctionDef, where: str, closure: tuple = ()):
         self.f, self.where = f, where
         self.closure = list(closure)       # variables of the enclosing function (bound first)
+        self.class_consts = {}             # cls.<name> -> ast of the constant assigned in the class body
+        self.module_consts = {}            # imported module-level constant -> python int
         self.aliases = {}                  # local name -> (prim, translated object) for `conv = x.valued`
         a = f.args
         if a.posonlyargs:
@@ -119,6 +121,8 @@ class Fn:
         if isinstance(n, ast.Name):
             if n.id in self.locals:
                 return f"XVar {q(n.id)}"
+            if n.id in self.module_consts:
+                return f"XInt ({self.module_consts[n.id]})%Z"
             bad(n, "name that is not a parameter or a local")
         if isinstance(n, ast.Constant):
             if n.value is None:
@@ -127,11 +131,23 @@ class Fn:
                 return f"XBool {'true' if n.value else 'false'}"
             if isinstance(n.value, int):
                 return f"XInt ({n.value})%Z"
+            if isinstance(n.value, str):
+                if '"' in n.value or "\\" in n.value:
+                    bad(n, "string constant")
+                return f"XStr {q(n.value)}"
+            if isinstance(n.value, float):
+                from fractions import Fraction
+                fr = Fraction(repr(n.value))         # the decimal literal as written (exact)
+                return f"XQ ({fr.numerator} # {fr.denominator})%Q"
             bad(n, "constant")
         if isinstance(n, ast.UnaryOp) and isinstance(n.op, ast.USub) and isinstance(n.operand, ast.Constant) \
                 and isinstance(n.operand.value, int) and not isinstance(n.operand.value, bool):
             return f"XInt ({-n.operand.value})%Z"
         if isinstance(n, ast.Attribute):
+            if isinstance(n.value, ast.Name) and n.value.id == "cls" and "cls" in self.locals:
+                if n.attr in self.class_consts:
+                    return self.x(self.class_consts[n.attr])
+                bad(n, "class attribute that is not a constant of the class body")
             if n.attr in ATTRS:
                 return self.P(ATTRS[n.attr], self.x(n.value))
             bad(n, "attribute")
@@ -168,9 +184,13 @@ class Fn:
                 return self.P("PMul", self.x(n.left), self.x(n.right))
             if isinstance(n.op, ast.Pow):
                 return self.P("PPow", self.x(n.left), self.x(n.right))
+            if isinstance(n.op, ast.Div):
+                return self.P("PDiv", self.x(n.left), self.x(n.right))
             if (isinstance(n.op, ast.Add) and isinstance(n.left, ast.Attribute) and n.left.attr == "shape"
                     and isinstance(n.right, ast.BinOp) and isinstance(n.right.op, ast.Mult) and same(n.right.left, "(1,)")):
                 return self.P("PRightShape", self.x(n.left), self.x(n.right.right))
+            if isinstance(n.op, ast.Add):
+                return self.P("PAdd", self.x(n.left), self.x(n.right))
             bad(n, "binary operator")
         if isinstance(n, ast.Tuple):
             if len(n.elts) == 0:
@@ -181,6 +201,8 @@ class Fn:
         if isinstance(n, ast.Set) and len(n.elts) == 1:
             return self.P("PSingleton", self.x(n.elts[0]))
         if isinstance(n, ast.Subscript):
+            if isinstance(n.slice, ast.Constant) and isinstance(n.slice.value, str):
+                return self.P("PGetItem", self.x(n.value), self.x(n.slice))
             if isinstance(n.slice, ast.Constant) and n.slice.value in (0, 1) and not isinstance(n.slice.value, bool):
                 return self.P(f"PItem{n.slice.value}", self.x(n.value))
             bad(n, "subscript")
@@ -265,6 +287,14 @@ class Fn:
                 self.only_kw(n, ("fill_value", "dim", "but_dim"))
                 return self.P("PWsumDim", self.x(n.args[0]), self.kw(n, "fill_value", "XInt (0)%Z"), self.kw(n, "dim", "XNone"),
                               self.kw(n, "but_dim", "XNone"))
+            if name == "sum_dim" and len(n.args) == 1:
+                self.only_kw(n, ("fill_value", "dim", "but_dim"))
+                return self.P("PSumDimU", self.x(n.args[0]), self.kw(n, "fill_value", "XInt (0)%Z"), self.kw(n, "dim", "XNone"),
+                              self.kw(n, "but_dim", "XNone"))
+            if name == "compute_std_from_variance" and len(n.args) == 1:
+                self.only_kw(n, ("varname", "tol"))
+                self.kw(n, "varname")
+                return self.P("PStd", self.x(n.args[0]), self.kw(n, "tol"))
             bad(n, "call of an unknown function")
         if (isinstance(f, ast.Call) and isinstance(f.func, ast.Name) and f.func.id == "type" and len(f.args) == 1 and not f.keywords
                 and isinstance(f.args[0], ast.Name) and len(n.args) == 1 and not n.keywords and isinstance(n.args[0], ast.Call)
@@ -299,6 +329,8 @@ class Fn:
                 return self.P("PClone", o)
             if m == "masked_fill" and nk == 0 and na == 2:
                 return self.P("PMaskedFill", o, self.x(n.args[0]), self.x(n.args[1]))
+            if m == "float" and nk == 0 and na == 0:
+                return self.P("PFloat", o)
             if m == "any" and nk == 0 and na == 0:
                 return self.P("PAny", o)
             if m == "sqrt" and nk == 0 and na == 0:
@@ -443,13 +475,58 @@ TARGETS = [
     ("wsum_dim_return_sum_of_weights_only", "utils/weighted_tensor/_utils.py", None, "wsum_dim_return_sum_of_weights_only"),
     ("unsqueeze_right", "utils/weighted_tensor/_utils.py", None, "unsqueeze_right"),
     ("compute_std_from_variance", "models/utilities.py", None, "compute_std_from_variance"),
+    ("scalar_noise_std_update", "models/obs_models/_gaussian.py", "FullGaussianObservationModel", "scalar_noise_std_update"),
+    ("diagonal_noise_std_update", "models/obs_models/_gaussian.py", "FullGaussianObservationModel", "diagonal_noise_std_update"),
 ]
+# names these functions may read from their module: (module file of the definition, name) — resolved to an integer constant
+MODULE_CONSTS = {"models/obs_models/_gaussian.py": {"LVL_FT": "variables/specs.py"}}
 # the dunder methods must be the plain dispatch `_apply_operation(self, other, "<op>"[, reverse=True])`
 DUNDERS = {"__add__": ("add", False), "__radd__": ("add", True), "__sub__": ("sub", False), "__rsub__": ("sub", True),
            "__mul__": ("mul", False), "__rmul__": ("mul", True), "__truediv__": ("truediv", False), "__rtruediv__": ("truediv", True),
            "__lt__": ("lt", False), "__le__": ("le", False), "__eq__": ("eq", False), "__ne__": ("ne", False), "__gt__": ("gt", False),
            "__ge__": ("ge", False)}
-DECORATORS = {"weighted_value": ["property"], "get_filled_value_and_weight": ["staticmethod"]}
+DECORATORS = {"weighted_value": ["property"], "get_filled_value_and_weight": ["staticmethod"],
+              "scalar_noise_std_update": ["classmethod"], "diagonal_noise_std_update": ["classmethod"]}
+
+
+def int_constant(tree: ast.Module, name: str) -> int:
+    """the module-level `name = <int literal>` (exactly one assignment)"""
+    vals = []
+    for n in tree.body:
+        if isinstance(n, ast.Assign) and len(n.targets) == 1 and isinstance(n.targets[0], ast.Name) and n.targets[0].id == name:
+            vals.append(n.value)
+        elif isinstance(n, (ast.AugAssign, ast.AnnAssign)) and isinstance(getattr(n, "target", None), ast.Name) and n.target.id == name:
+            raise Untranslatable(f"{name}: not a plain constant")
+    if len(vals) != 1:
+        raise Untranslatable(f"{name}: {len(vals)} module-level assignments")
+    try:
+        v = ast.literal_eval(vals[0])
+    except Exception:  # noqa
+        raise Untranslatable(f"{name}: not a literal")
+    if not isinstance(v, int) or isinstance(v, bool):
+        raise Untranslatable(f"{name}: not an integer")
+    return v
+
+
+def imported_from(tree: ast.Module, name: str) -> str | None:
+    """the module a name is imported from (`from <module> import name`), None when it is not imported that way"""
+    for n in tree.body:
+        if isinstance(n, ast.ImportFrom):
+            for a in n.names:
+                if (a.asname or a.name) == name:
+                    return None if a.asname not in (None, name) else f"{'.' * n.level}{n.module}"
+    return None
+
+
+def class_constants(tree: ast.Module, cls: str) -> dict:
+    cs = [n for n in tree.body if isinstance(n, ast.ClassDef) and n.name == cls]
+    out, seen = {}, {}
+    for n in cs[0].body if len(cs) == 1 else []:
+        if isinstance(n, ast.Assign) and len(n.targets) == 1 and isinstance(n.targets[0], ast.Name):
+            seen[n.targets[0].id] = seen.get(n.targets[0].id, 0) + 1
+            if isinstance(n.value, ast.Constant) and isinstance(n.value.value, (int, float)) and not isinstance(n.value.value, bool):
+                out[n.targets[0].id] = n.value
+    return {k: v for k, v in out.items() if seen[k] == 1}
 
 
 def find(tree: ast.Module, cls: str | None, name: str) -> ast.FunctionDef:
@@ -484,6 +561,15 @@ def translate_text(src_root: Path) -> tuple[str, dict]:
         if decs != DECORATORS.get(name, []):
             raise Untranslatable(f"{name}: decorators {decs}")
         fn = Fn(f, f"{rel}:{name}")
+        if cls is not None and "classmethod" in decs:
+            fn.class_consts = class_constants(trees[rel], cls)
+        for cname, crel in MODULE_CONSTS.get(rel, {}).items():
+            mod = imported_from(trees[rel], cname)
+            if mod != "leaspy." + crel[:-3].replace("/", "."):
+                raise Untranslatable(f"{rel}: {cname} is not imported from {crel} (but from {mod})")
+            if crel not in trees:
+                trees[crel] = ast.parse((src_root / crel).read_text())
+            fn.module_consts[cname] = int_constant(trees[crel], cname)
         out.append(f"(* {rel} : {(cls + '.') if cls else ''}{name}, line {f.lineno} *)")
         out.append(f"Definition src_{coq} : fundef :=\n  {fn.fundef()}.")
         out.append(f"Definition defaults_{coq} : list (string * default) := {fn.default_terms()}.")
